@@ -250,6 +250,7 @@ class RDFLibGraphsAdapter(RDFLibQuadsBaseAdapter):
 
     @override
     def triple(self, terms: Iterable[Any]) -> Quad:
+        self.graph  # noqa: B018 -- raises if no graph was started
         return Quad(*chain(terms, [self._graph_id]))
 
     @override
